@@ -190,7 +190,8 @@ async fn workload(mut sim: Sim, o: Opts) -> Result<Value, String> {
     let n = 3;
     let keys = sim::sorted_keys(n, &mut sim.rng);
     let limits: Vec<Option<usize>> = if o.mode == "sizes" {
-        let l = [64usize, 4096, 1 << 20][sim.rng.gen_range(0..3)];
+        // 0 and 1 are limits too: nothing (or next to nothing) fits
+        let l = [0usize, 1, 64, 4096, 1 << 20][sim.rng.gen_range(0..5)];
         match sim.rng.gen_range(0..4) {
             0 => vec![Some(l), None, None],
             1 => vec![None, Some(l), None],
@@ -201,6 +202,7 @@ async fn workload(mut sim: Sim, o: Opts) -> Result<Value, String> {
         vec![None, None, None]
     };
     let stream_limit = if o.mode == "abandon" { Some(8u64) } else { None };
+    let mut cfgs: Vec<anemo::Config> = Vec::new();
     for (i, k) in keys.iter().enumerate() {
         // some networks are built with a user outbound layer: the defaults must still apply
         sim::USER_OUTBOUND_LAYER.with(|c| c.set(sim.rng.gen_bool(0.5)));
@@ -225,6 +227,7 @@ async fn workload(mut sim: Sim, o: Opts) -> Result<Value, String> {
             config.inbound_request_timeout_ms = [None, Some(300), Some(800)][sim.rng.gen_range(0..3)];
             config.outbound_request_timeout_ms = [None, Some(400), Some(900)][sim.rng.gen_range(0..3)];
         }
+        cfgs.push(config.clone());
         let idx = sim
             .add_node(NodeCfg {
                 key: *k,
@@ -435,7 +438,8 @@ async fn workload(mut sim: Sim, o: Opts) -> Result<Value, String> {
                 request: Request::new(Bytes::from_static(b"after")).with_route("/after"),
                 abandon_after: None,
                 abandon_at: None,
-                must_succeed: true,
+                // (with a limit below the size of any header frame nothing can succeed)
+                must_succeed: !limits.iter().flatten().any(|l| *l < 128),
             },
         ));
     }
@@ -443,6 +447,24 @@ async fn workload(mut sim: Sim, o: Opts) -> Result<Value, String> {
         let _ = tokio::time::timeout(Duration::from_secs(600), h).await;
     }
     settle(&mut sim, 100).await;
+    if o.mode == "timeouts" && !o.faults {
+        // a stalled runtime: with only a serving-side deadline in play, a handler that needs a
+        // quarter of it is under way when the clock jumps past the deadline in one step; it needed
+        // less than the deadline, so it is answered normally, however late the task gets to run
+        for (a, b) in [(0usize, 1usize), (1, 2), (2, 0)] {
+            let (out_def, in_def) = (cfgs[a].outbound_request_timeout_ms, cfgs[b].inbound_request_timeout_ms);
+            let (None, Some(d)) = (out_def, in_def) else { continue };
+            let nonce = sim.nonce();
+            let mut req = Request::new(Bytes::from_static(b"stall")).with_route(format!("/stall{nonce}"));
+            req.headers_mut().insert("delay-ms".into(), (d / 4).to_string());
+            let h = spawn_call(&sim, Call { nonce, from: a, to: b, request: req, abandon_after: None, abandon_at: None, must_succeed: true });
+            settle(&mut sim, 20).await;
+            sim.run.obs(-1, "obs.stall", json!({"ms": d + 700}));
+            tokio::time::advance(Duration::from_millis(d + 700)).await;
+            let _ = tokio::time::timeout(Duration::from_secs(600), h).await;
+            settle(&mut sim, 100).await;
+        }
+    }
     sim.obs_all_peers();
     sim.run.obs(-1, "obs.rpc_quiet", json!({}));
     for i in 0..n {
